@@ -5,7 +5,7 @@ from models import refmeta
 
 ID = "C15"
 RULE = (
-    "three families on the real CsvPath: (meta) comments assembled from <=3 (thorough 4) chunks over {free text, 'key: value' fields with "
+    "three families on the real CsvPath: (meta) comments assembled from <=3 (thorough 5) chunks over {free text, 'key: value' fields with "
     "punctuation/digits, a stand-alone ':', id/name fields}, placed before, after or on both sides of the csvpath, single- and "
     "multi-line: every generated field must be in metadata with its value, and the run must equal the run without the comment; (modes) "
     "for every program x file x each of the 32 joint settings of return/unmatched/run/print/logic mode, the pairwise relations: "
@@ -16,7 +16,7 @@ RULE = (
 )
 BOUNDS = {
     "quick": "all comments of <=3 chunks over 9 chunk kinds x 3 placements (x 2 programs); 10 programs x 12 files x 32 mode vectors",
-    "thorough": "comments of <=4 chunks; 10 programs x all 40 files of <=3 records x 32 mode vectors",
+    "thorough": "comments of <=5 chunks; 10 programs x all 1,093 files of <=6 records x 32 mode vectors",
 }
 CHUNK = 120
 BUDGET = {"quick": 600, "thorough": 3400}
@@ -70,23 +70,23 @@ def _comments(maxlen):
             yield list(seq)
 
 
-def _all_files():
+def _all_files(nmax=3):
     out = []
-    for n in range(0, 4):
+    for n in range(0, nmax + 1):
         for pat in itertools.product("knb", repeat=n):
             out.append("".join(pat))
     return out
 
 
 def cases(tier, seed):
-    maxlen = 3 if tier == "quick" else 4
+    maxlen = 3 if tier == "quick" else 5
     for seq in _comments(maxlen):
         for place in ("before", "after", "both"):
             for sep in (" ", "\n   "):
                 if sep != " " and len(seq) < 2:
                     continue
                 yield {"kind": "meta", "seq": seq, "place": place, "sep": sep, "prog": (len(seq) + seq[0]) % 2}
-    files = FILES_Q if tier == "quick" else _all_files()
+    files = FILES_Q if tier == "quick" else _all_files(6)
     for pi in range(len(PROGRAMS)):
         for f in files:
             yield {"kind": "modes", "prog": pi, "file": f}
